@@ -1214,6 +1214,20 @@ func vfPanicSite(msg string, skip ...string) (site, fn string) {
 		}
 		return fmt.Sprintf("%s:%d:%s", filepath.Base(file), vfOrigLine(file, ln), cat), f
 	}
+	// no frame of the package itself: name the innermost frame of a dependency
+	for i, l := range lines {
+		if strings.HasPrefix(l, "github.com/") && !strings.HasPrefix(l, "github.com/pkg/sftp.") && i+1 < len(lines) {
+			loc := strings.TrimSpace(lines[i+1])
+			if j := strings.Index(loc, " "); j > 0 {
+				loc = loc[:j]
+			}
+			fn := l
+			if j := strings.LastIndex(fn, "("); j > 0 {
+				fn = fn[:j]
+			}
+			return fmt.Sprintf("%s/%s:%s", filepath.Base(filepath.Dir(loc)), filepath.Base(loc), cat), fn
+		}
+	}
 	return "?:" + cat, ""
 }
 
